@@ -2,11 +2,18 @@
 //! usage: vcheck <ID> [--tier quick|thorough] [--replay <file>] [extra…]
 mod bfs;
 mod common;
+mod daemon_world;
+mod en_alloc;
 mod en_checksum;
+mod en_codec;
+mod en_corpus;
+mod en_crc;
+mod en_decode;
 mod en_paths;
 mod en_udp;
 mod mons;
 mod props_e1;
+mod props_e2;
 mod refck;
 mod seq_fsreq;
 mod seq_segments;
@@ -57,19 +64,24 @@ fn main() {
         "C02" => props_e1::c02(&args),
         "C03" => props_e1::c03(&args),
         "C04" => props_e1::c04(&args),
+        "C05" => en_codec::run(&args),
+        "C06" => en_decode::run(&args),
         "C07" => props_e1::c07(&args),
         "C08" => props_e1::c08(&args),
         "C09" => seq_segments::run(&args),
         "C10" => props_e1::c10(&args),
+        "C11" => props_e2::c11(&args),
         "C12" => en_paths::run(&args),
         "C13" => seq_fsreq::run(&args),
         "C14" => en_checksum::run(&args),
+        "C15" => en_crc::run(&args),
         "C16" => en_udp::run(&args),
         "C17" => props_e1::c17(&args),
         "C18" => props_e1::c18(&args),
         "C19" => props_e1::c19(&args),
         "C20" => props_e1::c20(&args),
         "DBG" => props_e1::dbg(&args),
+        "E2DBG" => props_e2::dbg(&args),
         _ => {
             eprintln!("unknown property id {}", id);
             std::process::exit(2)
